@@ -169,7 +169,12 @@ def _evaluate(case, ctx, b, prog, opts):
             lk = M.strip(lt, prog)
             if lk["k"] == "cls":
                 lcd = prog["classes"][lk["i"]]
-                sig["flatten"] = any(f.get("agg") == "flatten" for f in lcd["fields"])
+                # a flattened field in the class itself or in a class only reachable through one of its aggregate
+                # (pattern / additional properties) fields, whose items the localisation does not enter
+                agg_reach = {j for f in lcd["fields"] if f.get("agg") not in (None, "flatten")
+                             for k_, j in tdcase.reachable_named(prog, f["t"], "deserialization") if k_ == "cls"}
+                sig["flatten"] = any(f.get("agg") == "flatten" for f in lcd["fields"]) or \
+                    any(f.get("agg") == "flatten" for j in agg_reach for f in prog["classes"][j]["fields"])
                 if sig["flatten"]:
                     # known finding "flattened objects": re-evaluate under the neutraliser
                     try:
